@@ -3,6 +3,7 @@
    No proofs here: this is the object the correspondence check runs against the real binary. *)
 From RBP Require Import Bytes Hashes Base58 Utf8 Wire Block Render ScriptCustom CustomTop ScriptBtc Index.
 From RBP Require Merkle Drive Utxo Stats OutProto Published.
+From RBPGen Require SrcGen.      (* tables no property specifies (header texts, file stems): read from the source on every run *)
 
 (* ---------- coins by command-line name (types.rs) ---------- *)
 Definition coin_of_name (name:list N) : option coin :=
@@ -134,8 +135,8 @@ Definition utxo_events (delivered:list (N * eblock)) : list uevent :=
 Definition utxo_final (delivered:list (N * eblock)) : list (bytes * uval) := Utxo.run bytes uval beqb (utxo_events delivered).
 Definition unspent_row (e:bytes * uval) : bytes :=
   let '(k, (h, v, a)) := e in row [hash_str (firstn 32 k); dec (le_decode (skipn 32 k)); dec h; dec v; a].
-Definition UNSPENT_HEADER : bytes := Published.unspent_header ++ [NL].
-Definition BALANCES_HEADER : bytes := Published.balances_header ++ [NL].
+Definition UNSPENT_HEADER : bytes := SrcGen.unspent_header ++ [NL].
+Definition BALANCES_HEADER : bytes := SrcGen.balances_header ++ [NL].
 Definition unspent_totals (delivered:list (N * eblock)) : N * N * N :=
   (sumN (fun hb => vval (b_txcount (y_blk (snd hb)))) delivered,
    sumN (fun hb => sumN (fun t => vval (tx_incount (x_raw t))) (y_txs (snd hb))) delivered,
